@@ -836,10 +836,13 @@ fn expect_reverse_ask(
             // recorded amount stays in step with the size
             let back = c;
             flow_add(&mut e.flows, CONTRACT, approver, denom, back);
+            // the recorded approver amount equals the remaining size after every operation (C08);
+            // on a state an earlier version left out of step this also brings it back in step
+            let _ = amount;
             after.class = AskClass::Ready {
                 approver: approver.clone(),
                 denom: denom.clone(),
-                amount: amount.saturating_sub(back),
+                amount: after.size,
             };
         }
         if after.size == 0 {
@@ -1224,10 +1227,11 @@ fn expect_match(
                                 amount,
                             } = &a.class
                             {
+                                let _ = amount;
                                 a2.class = AskClass::Ready {
                                     approver: approver.clone(),
                                     denom: denom.clone(),
-                                    amount: amount.saturating_sub(size),
+                                    amount: a2.size,
                                 };
                             }
                             if a2.size == 0 {
